@@ -22,7 +22,7 @@ def lowbit(x):
 
 
 class BV:
-    __slots__ = ("w", "k0", "k1", "om", "nm", "ors", "arith", "sym", "someset", "gm")
+    __slots__ = ("w", "k0", "k1", "om", "nm", "ors", "arith", "sym", "someset", "gm", "lin")
 
     def __init__(self, w, k0=0, k1=0, om=0, nm=0, ors=(), arith=(), sym=None):
         self.w = w
@@ -35,6 +35,7 @@ class BV:
         self.sym = sym      # name if this value is exactly one opaque symbol
         self.someset = ()   # masks of which at least one bit is known to be 1
         self.gm = 0         # bits known to be >= the same bit of old (old OR something)
+        self.lin = None     # d such that value == old + d (mod 2^w) exactly
         if self.k1:
             self.someset = (self.k1,)
 
@@ -46,7 +47,9 @@ class BV:
 
     @staticmethod
     def old(w):
-        return BV(w, om=mask(w), sym="old")
+        r = BV(w, om=mask(w), sym="old")
+        r.lin = 0
+        return r
 
     @staticmethod
     def unknown(w, sym=None):
@@ -115,6 +118,12 @@ class BV:
         lb = lowbit(o.maybe1())
         if lb is None:
             return self
+        r = self._addsub(o, sign, desc, lb)
+        if self.lin is not None and o.is_const():
+            r.lin = self.lin + sign * o.k1
+        return r
+
+    def _addsub(self, o, sign, desc, lb):
         lb2 = lowbit(self.maybe1())
         # bits below the lowest possibly-set bit of the addend are unchanged
         low = mask(lb)
